@@ -18,18 +18,18 @@ Inductive c07case :=
 
 (* ------------------------------------------------------------------ flat view of a definition *)
 (* kinds: 1 admin entry, 2 user entry, 3 user-admin entry, 4 right entry, 5 group row *)
-Record sent := { s_kind : Z; s_g : Z; s_id : Z; s_date : Z; s_author : Z; s_a : Z; s_b : Z; s_c : Z }.
+Record sent := { s_kind : Z; s_g : Z; s_id : Z; s_date : Z; s_author : Z; s_a : Z; s_b : Z; s_c : Z; s_cd : Z }.
 Record sedge := { se_kind : Z; se_g : Z; se_src : Z; se_label : Z; se_dest : Z; se_date : Z; se_author : Z }.
 
 Definition sent_u (kind : Z) (g : uid) (n : unode) : sent :=
   {| s_kind := kind; s_g := zn g; s_id := zn (un_id n); s_date := un_date n; s_author := zn (un_author n);
-     s_a := zn (un_key n); s_b := zb (un_enabled n); s_c := 0 |}.
+     s_a := zn (un_key n); s_b := zb (un_enabled n); s_c := 0; s_cd := un_cdate n |}.
 Definition sent_r (g : uid) (n : rnode) : sent :=
   {| s_kind := 4; s_g := zn g; s_id := zn (rn_id n); s_date := rn_date n; s_author := zn (rn_author n);
-     s_a := zn (rn_ent n); s_b := zb (rn_self n); s_c := zb (rn_all n) |}.
+     s_a := zn (rn_ent n); s_b := zb (rn_self n); s_c := zb (rn_all n); s_cd := rn_cdate n |}.
 Definition sent_g (a : anode) : sent :=
   {| s_kind := 5; s_g := 0; s_id := zn (an_id a); s_date := an_date a; s_author := zn (an_author a);
-     s_a := 0; s_b := 0; s_c := 0 |}.
+     s_a := 0; s_b := 0; s_c := 0; s_cd := 0 |}.
 Definition sedge_of (kind : Z) (g : uid) (e : edge) : sedge :=
   {| se_kind := kind; se_g := zn g; se_src := zn (e_src e); se_label := zn (e_label e);
      se_dest := zn (e_dest e); se_date := e_date e; se_author := zn (e_author e) |}.
@@ -47,7 +47,7 @@ Definition sedges_of (n : roomnode) : list sedge :=
   ++ flat_map sedges_of_auth (rmn_gnodes n).
 
 Definition enc_sent (x : sent) : list Z :=
-  [s_kind x; s_g x; s_id x; s_date x; s_author x; s_a x; s_b x; s_c x].
+  [s_kind x; s_g x; s_id x; s_date x; s_author x; s_a x; s_b x; s_c x; s_cd x].
 Definition enc_sedge (e : sedge) : list Z :=
   [se_kind e; se_g e; se_src e; se_label e; se_dest e; se_date e; se_author e].
 Definition zlen {A} (l : list A) : Z := Z.of_nat (length l).
@@ -84,7 +84,7 @@ Definition run_C07 (c : c07case) : list Z :=
 Definition sent_eqb (x y : sent) : bool :=
   Z.eqb (s_kind x) (s_kind y) && Z.eqb (s_g x) (s_g y) && Z.eqb (s_id x) (s_id y) &&
   Z.eqb (s_date x) (s_date y) && Z.eqb (s_author x) (s_author y) && Z.eqb (s_a x) (s_a y) &&
-  Z.eqb (s_b x) (s_b y) && Z.eqb (s_c x) (s_c y).
+  Z.eqb (s_b x) (s_b y) && Z.eqb (s_c x) (s_c y) && Z.eqb (s_cd x) (s_cd y).
 Definition sedge_eqb (x y : sedge) : bool :=
   Z.eqb (se_kind x) (se_kind y) && Z.eqb (se_g x) (se_g y) && Z.eqb (se_src x) (se_src y) &&
   Z.eqb (se_label x) (se_label y) && Z.eqb (se_dest x) (se_dest y) && Z.eqb (se_date x) (se_date y) &&
@@ -186,7 +186,7 @@ Fixpoint chunk {A} (fuel k : nat) (l : list A) : list (list A) :=
   match fuel with O => [] | S f => take k l :: chunk f k (dropn k l) end.
 Definition dec_sent (l : list Z) : option sent :=
   match l with
-  | [a; b; c; d; e; f; g; h] => Some {| s_kind := a; s_g := b; s_id := c; s_date := d; s_author := e; s_a := f; s_b := g; s_c := h |}
+  | [a; b; c; d; e; f; g; h; i] => Some {| s_kind := a; s_g := b; s_id := c; s_date := d; s_author := e; s_a := f; s_b := g; s_c := h; s_cd := i |}
   | _ => None end.
 Definition dec_sedge (l : list Z) : option sedge :=
   match l with
@@ -198,16 +198,16 @@ Fixpoint all_some {A} (l : list (option A)) : option (list A) :=
   | Some x :: tl => match all_some tl with Some r => Some (x :: r) | None => None end
   | None :: _ => None
   end.
-(* [n; n*8 ints; m; m*7 ints; rest] *)
+(* [n; n*9 ints; m; m*7 ints; rest] *)
 Definition decode_result (l : list Z) : option (list sent * list sedge * list Z) :=
   match l with
   | [] => None
   | n :: t1 =>
       let n' := Z.to_nat n in
-      match all_some (map dec_sent (chunk n' 8 t1)) with
+      match all_some (map dec_sent (chunk n' 9 t1)) with
       | None => None
       | Some es =>
-          match dropn (n' * 8) t1 with
+          match dropn (n' * 9) t1 with
           | [] => None
           | m :: t2 =>
               let m' := Z.to_nat m in
